@@ -119,6 +119,13 @@ class Model:
                 pointee = pty.split(' ', 1)[1]
                 d = self.desc_adt
                 if d and (pointee == d or pointee == '[%s]' % d or pointee.startswith('[%s;' % d)):
+                    ptr = root[1]
+                    dp = self.qf.get('desc_ptr')
+                    from_q = derives_from(ptr, lambda x: x[0] == 'loc' and x[2] and x[2][-1][0] == 'f' and x[2][-1][1] == dp and x[2][-1][2] == self.queue_adt)
+                    boxy = derives_from(ptr, lambda x: x[0] == 'loc' and any(
+                        pp[0] == 'f' and len(pp) > 2 and pp[2] in ('alloc::boxed::Box', 'core::ptr::Unique') for pp in x[2]))
+                    if boxy and not from_q:
+                        return None
                     fld = None
                     for p in loc[2]:
                         if p[0] == 'f' and len(p) > 2 and p[2] == d:
